@@ -15,7 +15,7 @@ PLAN = {
     "C15": ["serverconn", "tlspump", "live"],
     "C11": ["clientconn", "c03"],
     "C20": ["tlspump", "live"],
-    "C08": ["url", "serverconn", "tlspump"],
+    "C08": ["url", "titanline", "serverconn", "tlspump"],
 }
 
 if __name__ == "__main__":
